@@ -220,86 +220,123 @@ func wantTime(sec, nsec int64) expectation {
 	})
 }
 
-var canonicalInt = regexp.MustCompile(`^(0|-?[1-9][0-9]*)$`)
-var looseInt = regexp.MustCompile(`^\s*[+-]?[0-9][0-9_]*\s*$`)
-var canonicalFloat = regexp.MustCompile(`^-?(0|[1-9][0-9]*)(\.[0-9]+)?([eE][+-]?[0-9]+)?$`)
-var digitsOnly = regexp.MustCompile(`[0-9]`)
+// The conversions "int" and "float" of a String parse PLAIN DECIMAL numerals (the descriptions say
+// "Converts the argument to an int / a float"; a failed parse is NULL, never an error, never another
+// base). Three classes:
+//
+//	must convert : -?digits for int (leading zeros are still decimal: '010' = 10, '08' = 8);
+//	               -?(digits[.digits] | .digits)[e[+-]digits] for float
+//	may convert  : the same with surrounding blanks or a leading '+', a decimal fraction/exponent
+//	               given to int(), the IEEE names inf/infinity/nan and (float only) Go's hexadecimal
+//	               float spelling: NULL or exactly the natural value
+//	must be NULL : everything else: other bases (0x1F, 0b101, 0o17), digit separators (1_000),
+//	               letters, empty, two signs ...
+var strictInt = regexp.MustCompile(`^-?[0-9]+$`)
+var strictFloat = regexp.MustCompile(`^-?([0-9]+(\.[0-9]*)?|\.[0-9]+)([eE][+-]?[0-9]+)?$`)
+var paddedDecimal = regexp.MustCompile(`^[ \t]*[+-]?([0-9]+(\.[0-9]*)?|\.[0-9]+)([eE][+-]?[0-9]+)?[ \t]*$`)
+var ieeeName = regexp.MustCompile(`^[+-]?(?i:inf|infinity|nan)$`)
+var digitSeparated = regexp.MustCompile(`^[+-]?[0-9._eE+-]*[0-9]_[0-9][0-9._eE+-]*$`)
+var hexFloat = regexp.MustCompile(`^[+-]?0[xX]([0-9a-fA-F]+(\.[0-9a-fA-F]*)?|\.[0-9a-fA-F]+)[pP][+-]?[0-9]+$`)
 
-// intFromString: three classes. Canonical decimal integers within int64 must convert; strings that
-// are not a number under any common reading must give NULL ("failed parse => NULL", never an
-// error); everything in between (sign +, padding, leading zeros, exponents, hex, underscores,
-// fractions, out-of-range) may give NULL or the natural value.
+// decimalValue: the exact value of a (possibly padded, possibly '+'-signed) decimal numeral.
+func decimalValue(s string) (*big.Rat, bool) {
+	if !paddedDecimal.MatchString(s) {
+		return nil, false
+	}
+	t := strings.TrimPrefix(strings.Trim(s, " \t"), "+")
+	// big.Rat.SetString accepts "5." and ".5" and exponents; huge exponents are bounded by the pools
+	if i := strings.IndexAny(t, "eE"); i >= 0 {
+		if exp, err := strconv.Atoi(t[i+1:]); err != nil || exp > 5000 || exp < -5000 {
+			return nil, false
+		}
+	}
+	r, ok := new(big.Rat).SetString(t)
+	return r, ok
+}
+
+func saturatedOrNull(got V) bool {
+	return got.TypeID == tNull || (got.TypeID == tInt && (got.Int == math.MaxInt64 || got.Int == math.MinInt64))
+}
+
 func intFromString(s string) expectation {
-	if canonicalInt.MatchString(s) && s != "-0" {
+	if _, small := decimalValue(s); !small && paddedDecimal.MatchString(s) {
+		return wantPred("NULL or an Int (extreme exponent)", func(got V) bool { return got.TypeID == tNull || got.TypeID == tInt })
+	}
+	if strictInt.MatchString(s) {
 		b, _ := new(big.Int).SetString(s, 10)
 		if b.IsInt64() {
 			return want(vInt(b.Int64()))
 		}
-		return wantPred("NULL (out of range) or a saturated Int", func(got V) bool {
-			return got.TypeID == tNull || (got.TypeID == tInt && (got.Int == math.MaxInt64 || got.Int == math.MinInt64))
-		})
+		return wantPred("NULL (out of range) or a saturated Int", saturatedOrNull)
 	}
-	if clearlyNotANumber(s) {
-		return want(vNull())
+	if r, isDec := decimalValue(s); isDec {
+		// '+5', ' 5', '1e3', '1.0', '1.5': NULL, or the value (a fraction: floor or ceiling)
+		fl := new(big.Int).Div(r.Num(), r.Denom()) // Euclidean = floor for a positive denominator
+		accept := []V{vNull()}
+		if fl.IsInt64() {
+			accept = append(accept, vInt(fl.Int64()))
+			if !r.IsInt() && fl.Int64() < math.MaxInt64 {
+				accept = append(accept, vInt(fl.Int64()+1))
+			}
+			return want(accept...)
+		}
+		return wantPred("NULL (out of range) or a saturated Int", saturatedOrNull)
 	}
-	return wantPred("NULL or an Int (ambiguous numeral)", func(got V) bool { return got.TypeID == tNull || got.TypeID == tInt })
+	return want(vNull())
+}
+
+func nearestFloat(r *big.Rat) expectation {
+	f, _ := r.Float64() // nearest float64
+	if !math.IsInf(f, 0) {
+		return wantPred(fmt.Sprintf("Float(%g)", f), withinUlps(f, 1))
+	}
+	return wantPred("NULL or +-Inf (out of range)", func(got V) bool {
+		return got.TypeID == tNull || (got.TypeID == tFloat && math.IsInf(got.Float, 0))
+	})
+}
+
+func orNull(e expectation) expectation {
+	inner := e
+	return wantPred("NULL or "+e.desc, func(got V) bool { return got.TypeID == tNull || inner.holds(got) })
 }
 
 func floatFromString(s string) expectation {
-	if canonicalFloat.MatchString(s) {
-		r, okRat := new(big.Rat).SetString(s)
-		if okRat {
-			f, _ := r.Float64() // nearest float64
-			if !math.IsInf(f, 0) {
-				return wantPred(fmt.Sprintf("Float(%g) (nearest to %s)", f, s), withinUlps(f, 1))
-			}
-			return wantPred("NULL or +-Inf (out of range)", func(got V) bool {
-				return got.TypeID == tNull || (got.TypeID == tFloat && math.IsInf(got.Float, 0))
-			})
+	if _, small := decimalValue(s); !small && paddedDecimal.MatchString(s) {
+		// a decimal numeral with an exponent beyond +-5000 (zero, overflow or underflow): not worked out exactly
+		return wantPred("NULL or a Float (extreme exponent)", func(got V) bool { return got.TypeID == tNull || got.TypeID == tFloat })
+	}
+	if strictFloat.MatchString(s) {
+		if r, isDec := decimalValue(s); isDec {
+			return nearestFloat(r)
 		}
 	}
-	if clearlyNotANumber(s) {
+	if r, isDec := decimalValue(s); isDec {
+		return orNull(nearestFloat(r)) // ' 1', '1 ', '+1'
+	}
+	if ieeeName.MatchString(s) {
+		l := strings.ToLower(strings.TrimLeft(s, "+-"))
+		f := math.Inf(1)
+		if l == "nan" {
+			f = math.NaN()
+		} else if strings.HasPrefix(s, "-") {
+			f = math.Inf(-1)
+		}
+		return orNull(want(vFloat(f)))
+	}
+	if strings.Contains(s, "_") && digitSeparated.MatchString(s) {
+		// Go's ParseFloat reads '1_000' and '1_0.5' (separators between digits); int() does not.
+		// Whether that is a parse failure is not stated: NULL or the value without the separators.
+		if r, isDec := decimalValue(strings.ReplaceAll(s, "_", "")); isDec {
+			return orNull(nearestFloat(r))
+		}
+	}
+	if hexFloat.MatchString(s) {
+		if f, err := strconv.ParseFloat(s, 64); err == nil { // Go's own reading of its hexadecimal float spelling
+			return orNull(want(vFloat(f)))
+		}
 		return want(vNull())
 	}
-	return wantPred("NULL or a Float (ambiguous numeral)", func(got V) bool { return got.TypeID == tNull || got.TypeID == tFloat })
-}
-
-// clearlyNotANumber: no digit at all and not one of the IEEE special names; or letters other than
-// those that occur in numerals (e, x, hex digits, p, inf/nan/infinity), or two signs in a row.
-func clearlyNotANumber(s string) bool {
-	l := strings.ToLower(strings.TrimSpace(s))
-	if l == "" {
-		return true
-	}
-	for _, special := range []string{"inf", "+inf", "-inf", "infinity", "+infinity", "-infinity", "nan", "+nan", "-nan"} {
-		if l == special {
-			return false
-		}
-	}
-	if !digitsOnly.MatchString(l) {
-		return true
-	}
-	for _, r := range l {
-		switch {
-		case r >= '0' && r <= '9', r == '.', r == '+', r == '-', r == '_', r == ' ', r == ',':
-		case r >= 'a' && r <= 'f', r == 'x', r == 'p', r == 'o':
-		default:
-			return true
-		}
-	}
-	if strings.Contains(l, "--") || strings.Contains(l, "++") || strings.Contains(l, "+-") || strings.Contains(l, "-+") {
-		// "1e+-3" and friends
-		return true
-	}
-	// hex-looking letters without a 0x prefix and without being an exponent: "abc1", "1f"
-	if !strings.Contains(l, "0x") {
-		for _, r := range l {
-			if (r >= 'a' && r <= 'd') || r == 'f' {
-				return true
-			}
-		}
-	}
-	return false
+	return want(vNull())
 }
 
 // ---------------------------------------------------------------------------------------------
